@@ -4,6 +4,7 @@ use std::time::Duration;
 pub const DEFAULT_MAX_ATTEMPTS: u32 = 5;
 /// Default attempt duration step.
 pub const DEFAULT_STEP: Duration = Duration::from_secs(1);
+const NANOS_PER_SEC: u128 = 1_000_000_000;
 
 #[doc(hidden)]
 #[derive(Debug, PartialEq)]
@@ -287,9 +288,21 @@ impl Iterator for BackoffStrategyIter {
         }
 
         let mut next_duration = match self.strategy_type {
-            Strategy::Linear => step * current_attempt,
+            Strategy::Linear => step.saturating_mul(current_attempt),
             Strategy::Constant => step,
-            Strategy::Exponential(factor) => step.mul_f64(factor.pow(current_attempt - 1) as f64),
+            Strategy::Exponential(factor) => u128::from(factor)
+                .checked_pow(current_attempt - 1)
+                .and_then(|mult| step.as_nanos().checked_mul(mult))
+                .and_then(|nanos| {
+                    u64::try_from(nanos / NANOS_PER_SEC)
+                        .ok()
+                        .map(|secs| Duration::new(secs, (nanos % NANOS_PER_SEC) as u32))
+                })
+                .unwrap_or(if step.is_zero() {
+                    Duration::ZERO
+                } else {
+                    Duration::MAX
+                }),
         };
 
         self.current_attempt += 1;
